@@ -42,6 +42,7 @@ def parse(case, out):
         d["srv"] = dict(zip(n2, out[7:12]))
         d["moved"] = out[12:14]
         d["nmsg"] = out[14]
+        d["pend_at_release"] = out[15] if len(out) > 15 else 0
     return d
 
 
@@ -211,15 +212,30 @@ def oracle(case, out):
                 return "ws/%s: %s handshake failed" % (tl, who)
             if s["err"]:
                 return "ws/%s: %s failed at step %d" % (tl, who, s["err"])
-        if d["cli"]["n_ok"] != len(msgs):
-            return "ws/%s: client got %d matching replies for %d messages" % (tl, d["cli"]["n_ok"], len(msgs))
-        echoed = sum(1 for k, _ in msgs if k in (0, 1))
-        if d["srv"]["n_ok"] != echoed:
-            return "ws/%s: server echoed %d of %d data messages" % (tl, d["srv"]["n_ok"], echoed)
+        if gen_c15.ws_mode(case) == 3:
+            if d["cli"]["n_ok"] != len(msgs):
+                return ("ws/%s: with the outgoing direction stalled (a fed message unflushed, the transport's send side full) the "
+                        "reader was handed %d of the %d messages the peer sent, in order (a message was dropped, duplicated or "
+                        "reordered)" % (tl, d["cli"]["n_ok"], len(msgs)))
+            if d["srv"]["n_ok"] != 1:
+                return "ws/%s: the 400000-byte message fed before the stall did not arrive intact" % tl
+        else:
+            if d["cli"]["n_ok"] != len(msgs):
+                return "ws/%s: client got %d matching replies for %d messages" % (tl, d["cli"]["n_ok"], len(msgs))
+            echoed = sum(1 for k, _ in msgs if k in (0, 1))
+            if d["srv"]["n_ok"] != echoed:
+                return "ws/%s: server echoed %d of %d data messages" % (tl, d["srv"]["n_ok"], echoed)
         if not d["cli"]["close"] or not d["srv"]["close"]:
             return "ws/%s: closing handshake not completed on both sides" % tl
         return None
     return None
+
+
+def hits(case, out):
+    d = parse(case, out)
+    if d and d["kind"] == 2 and gen_c15.ws_mode(case) == 3 and d.get("pend_at_release", 0) >= 1:
+        return ["ws read with unflushable outgoing data"]
+    return []
 
 
 def case_len(case):
